@@ -109,9 +109,10 @@ func (df *DataFile) WriteMergeFinRecord(id FileID) error {
 	if df.closed {
 		return ErrClosed
 	}
-	data := make([]byte, 4)
-	binary.LittleEndian.PutUint32(data, id)
-	_, err := df.ReadWriter.Write(data)
+	// 与 ReadMergeFinRecord 保持一致, 以 chunk 形式写入, 同时获得校验和保护
+	data := bytebufferpool.Get()
+	data.B = binary.LittleEndian.AppendUint32(data.B, id)
+	_, err := df.writeSingle(data)
 	return err
 }
 
@@ -283,6 +284,9 @@ func (df *DataFile) ReadMergeFinRecord() FileID {
 	defer bytebufferpool.Put(buf)
 	err := df.readToBuf(0, 0, buf)
 	if err != nil {
+		return 0
+	}
+	if buf.Len() < 4 {
 		return 0
 	}
 	value := binary.LittleEndian.Uint32(buf.Bytes())
